@@ -171,6 +171,20 @@ def check_layout_object(ctx, l, case, accepted_hint=True):
                 ctx.fail(case, f"get_zone_id of a grid that is no zone (a proper view / a shifted copy of zone '{n}') answers "
                                f"{zid!r}, which maps to a different grid", key=case.get("key"))
                 break
+    # a copy of a layout (copy, deepcopy, pickle round trip) is the same layout: equal, same hash, same index
+    import copy as _copy
+    import pickle as _pickle
+    for how, mk in (("copy.copy", _copy.copy), ("copy.deepcopy", _copy.deepcopy), ("pickle", lambda o: _pickle.loads(_pickle.dumps(o)))):
+        try:
+            c = mk(l)
+        except Exception as e:  # noqa: BLE001
+            ctx.fail(case, f"{how} of a layout raises {type(e).__name__}", key=case.get("key"))
+            continue
+        ids0 = [l.get_zone_id(z) for z in itertools.chain(l.static_traps.values(), l.special_grid.values())]
+        ids1 = [c.get_zone_id(z) for z in itertools.chain(l.static_traps.values(), l.special_grid.values())]
+        if not (c == l and l == c and hash(c) == hash(l)) or ids0 != ids1:
+            ctx.fail(case, f"{how} of a layout is not the same layout (==, hash or zone index differ: {ids1} vs {ids0})", key=case.get("key"))
+            break
     # two names may not denote the same grid
     zs = list(itertools.chain(l.static_traps.items(), l.special_grid.items()))
     for (n1, z1), (n2, z2) in itertools.combinations(zs, 2):
